@@ -208,7 +208,11 @@ Section Refine.
   Variable contents : kv_st K -> kvlist.
   Hypothesis H_put : forall k v s, contents (kv_put K k v s) = sm_put k v (contents s).
   Hypothesis H_del : forall k s, contents (kv_del K k s) = sm_del k (contents s).
-  Hypothesis H_scan : forall p s, fst (kv_scan K p s) = sm_scan p (contents s) /\ contents (snd (kv_scan K p s)) = contents s.
+  (* a scan never changes the contents; if it ends without an error it yielded the prefix scan of the contents *)
+  Hypothesis H_scan : forall p s,
+    (forall l, fst (kv_scan K p s) = Some l -> l = sm_scan p (contents s)) /\ contents (snd (kv_scan K p s)) = contents s.
+  (* "no read fault occurs" *)
+  Definition scan_total : Prop := forall p s, fst (kv_scan K p s) <> None.
   Hypothesis H_restore : forall cur s, contents (kv_restore K cur s) = contents s.
 
   Variable kgf : bytes -> N.
@@ -332,26 +336,47 @@ Section Refine.
   Lemma inv_contents s s' A : contents s' = contents s -> Inv s A -> Inv s' A.
   Proof. intros E. unfold Inv. rewrite E. tauto. Qed.
 
-  (* reading: GetState returns the grouped flat map of that subject, never panics, leaves the contents alone *)
+  (* reading: GetState returns the complete grouped flat map of that subject or an error - nothing in between -,
+     never panics, leaves the contents alone *)
   Lemma get_state_inv s A k : key_ok k -> Inv s A ->
-    exists s', get_state K kgf k s = Some (view (A k), s') /\ contents s' = contents s.
+    exists s', contents s' = contents s /\
+      (get_state K kgf k s = FOk (view (A k)) s' \/ (get_state K kgf k s = FErr s' /\ ~ scan_total)).
   Proof.
     intros Hk (I1 & I2 & I3). unfold get_state.
     destruct (H_scan (enc_subject kgf k) s) as [E1 E2].
-    destruct (kv_scan K (enc_subject kgf k) s) as [l s']. cbn [fst snd] in *. subst l.
-    rewrite (I2 k Hk), decode_entries_encp by (auto; apply I3). exists s'. split; [reflexivity|exact E2].
+    destruct (kv_scan K (enc_subject kgf k) s) as [[l|] s'] eqn:Es; cbn [fst snd] in *; exists s'; (split; [exact E2|]).
+    - left. rewrite (E1 l eq_refl), (I2 k Hk), decode_entries_encp by (auto; apply I3). reflexivity.
+    - right. split; [reflexivity|]. intros T. apply (T (enc_subject kgf k) s). now rewrite Es.
   Qed.
 
   Lemma fetch_states_inv ks : forall s A,
     Forall key_ok ks -> Inv s A ->
-    exists s', fetch_states K kgf ks s = Some (map (fun k => (k, view (A k))) ks, s') /\ contents s' = contents s.
+    exists s', contents s' = contents s /\
+      (fetch_states K kgf ks s = FOk (map (fun k => (k, view (A k))) ks) s' \/
+       (fetch_states K kgf ks s = FErr s' /\ ~ scan_total)).
   Proof.
     induction ks as [|k ks IH]; intros s A Hks HI; cbn [fetch_states map].
-    - exists s. split; reflexivity.
+    - exists s. split; [reflexivity|left; reflexivity].
     - inversion Hks as [|? ? Hk Hks']; subst.
-      destruct (get_state_inv s A k Hk HI) as (s1 & E1 & C1). rewrite E1.
-      destruct (IH s1 A Hks' (inv_contents _ _ _ C1 HI)) as (s2 & E2 & C2). rewrite E2.
-      exists s2. split; [reflexivity|]. now rewrite C2.
+      destruct (get_state_inv s A k Hk HI) as (s1 & C1 & [E1|[E1 N1]]); rewrite E1.
+      + destruct (IH s1 A Hks' (inv_contents _ _ _ C1 HI)) as (s2 & C2 & [E2|[E2 N2]]); rewrite E2;
+          exists s2; (split; [now rewrite C2|]); [left; reflexivity|right; split; [reflexivity|exact N2]].
+      + exists s1. split; [exact C1|]. right. split; [reflexivity|exact N1].
+  Qed.
+
+  (* a failed read applies nothing: the batch ends with BFailed, the handler is not called, the contents stay *)
+  Lemma failed_scan_applies_nothing h evs s s1 A :
+    Forall (fun ev => key_ok (fst ev)) evs -> Inv s A ->
+    fetch_states K kgf (distinct_keys [] (map fst evs)) s = FErr s1 ->
+    process_batch K kgf accept h evs s = Some (BFailed, s1) /\ contents s1 = contents s.
+  Proof.
+    intros Hev HI E. unfold process_batch. destruct evs as [|ev evs]; [cbn in E; discriminate|]. rewrite E.
+    split; [reflexivity|].
+    assert (Hkeys : Forall key_ok (distinct_keys [] (map fst (ev :: evs)))).
+    { clear -Hev. generalize (@nil bytes). induction Hev as [|x l Hx _ IH]; intros seen; cbn [map distinct_keys]; [constructor|].
+      destruct (mem_bytes (fst x) seen); [apply IH|constructor; [exact Hx|apply IH]]. }
+    destruct (fetch_states_inv _ s A Hkeys HI) as (s' & C & [E'|[E' _]]); rewrite E in E'; [discriminate|].
+    injection E' as <-. exact C.
   Qed.
 
   Lemma distinct_keys_ok seen l : Forall key_ok l -> Forall key_ok (distinct_keys seen l).
@@ -385,65 +410,100 @@ Section Refine.
   Lemma inv_restore cur s A : Inv s A -> Inv (kv_restore K cur s) A.
   Proof. apply inv_contents. apply H_restore. Qed.
 
+  (* one step: either it is simulated by the specification machine, or it is a batch whose read failed (possible
+     only if scans can fail) and then nothing changes that the specification machine could see *)
   Lemma sim_step h y a st :
     handler_ok h -> step_ok st -> Sim y a ->
-    exists y', do_step K kgf accept h y st = Some y' /\ Sim y' (o_step h a st).
+    exists y', do_step K kgf accept h y st = Some y' /\
+      (Sim y' (o_step h a st) \/ (Sim y' a /\ (exists evs, st = SBatch evs) /\ ~ scan_total)).
   Proof.
     intros Hh Hst (HI & HS & HT). destruct st as [evs|k t|id|id]; cbn [do_step o_step].
     - destruct evs as [|ev evs].
-      + cbn [process_batch]. eexists; split; [reflexivity|].
+      + cbn [process_batch]. eexists; split; [reflexivity|]. left.
         unfold Sim; cbn [sy_db sy_saved sy_trace]. split; [exact HI|split; [exact HS|exact HT]].
       + unfold process_batch.
         set (keys := distinct_keys [] (map fst (ev :: evs))).
         assert (Hkeys : Forall key_ok keys).
         { apply distinct_keys_ok. cbn [step_ok] in Hst. clear -Hst. induction Hst; cbn [map]; constructor; auto. }
-        destruct (fetch_states_inv keys _ _ Hkeys HI) as (s1 & Ef & Cf). rewrite Ef.
-        apply (inv_contents _ _ _ Cf) in HI.
-        eexists; split; [reflexivity|].
-        unfold Sim; cbn [sy_db sy_saved sy_trace o_log o_saved o_trace].
-        unfold o_state, A_of in *.
-        set (rq := {| rq_states := map (fun k => (k, view (fm_of_responses k (o_log a)))) keys; rq_events := ev :: evs |}).
-        split; [|split; [exact HS|rewrite HT; reflexivity]].
-        pose proof (inv_apply_results _ _ (h rq) (Hh rq) HI) as H1.
-        eapply inv_ext; [|exact H1]. intros k. cbn beta. symmetry. apply fm_of_responses_snoc.
-    - eexists; split; [reflexivity|]. unfold Sim; cbn [sy_db sy_saved sy_trace].
+        destruct (fetch_states_inv keys _ _ Hkeys HI) as (s1 & Cf & [Ef|[Ef Nf]]); rewrite Ef;
+          apply (inv_contents _ _ _ Cf) in HI.
+        * eexists; split; [reflexivity|]. left.
+          unfold Sim; cbn [sy_db sy_saved sy_trace o_log o_saved o_trace].
+          unfold o_state, A_of in *.
+          set (rq := {| rq_states := map (fun k => (k, view (fm_of_responses k (o_log a)))) keys; rq_events := ev :: evs |}).
+          split; [|split; [exact HS|rewrite HT; reflexivity]].
+          pose proof (inv_apply_results _ _ (h rq) (Hh rq) HI) as H1.
+          eapply inv_ext; [|exact H1]. intros k. cbn beta. symmetry. apply fm_of_responses_snoc.
+        * eexists; split; [reflexivity|]. right. split; [|split; [eexists; reflexivity|exact Nf]].
+          unfold Sim; cbn [sy_db sy_saved sy_trace]. split; [exact HI|split; [exact HS|exact HT]].
+    - eexists; split; [reflexivity|]. left. unfold Sim; cbn [sy_db sy_saved sy_trace].
       split; [|split; [exact HS|exact HT]]. now apply inv_timer_del.
-    - eexists; split; [reflexivity|]. unfold Sim; cbn [sy_db sy_saved sy_trace o_log o_saved o_trace].
+    - eexists; split; [reflexivity|]. left. unfold Sim; cbn [sy_db sy_saved sy_trace o_log o_saved o_trace].
       split; [exact HI|split; [|exact HT]].
       constructor; [|exact HS]. split; [reflexivity|exact HI].
     - pose proof (lookup_ckpt_rel id _ _ HS) as HL.
       destruct (lookup_ckpt id (sy_saved y)) as [s|], (lookup_ckpt id (o_saved a)) as [l|]; try contradiction.
-      + eexists; split; [reflexivity|]. unfold Sim; cbn [sy_db sy_saved sy_trace o_log o_saved o_trace].
+      + eexists; split; [reflexivity|]. left. unfold Sim; cbn [sy_db sy_saved sy_trace o_log o_saved o_trace].
         split; [|split; [exact HS|exact HT]]. now apply inv_restore.
-      + eexists; split; [reflexivity|]. split; [exact HI|split; [exact HS|exact HT]].
+      + eexists; split; [reflexivity|]. left. split; [exact HI|split; [exact HS|exact HT]].
   Qed.
+
+  (* [pruned steps steps']: steps' is steps without some of its batches (the ones whose read failed) *)
+  Inductive pruned : list step -> list step -> Prop :=
+  | pr_nil : pruned [] []
+  | pr_keep st l l' : pruned l l' -> pruned (st :: l) (st :: l')
+  | pr_drop evs l l' : pruned l l' -> pruned (SBatch evs :: l) l'.
 
   Lemma sim_run h steps : forall y a,
     handler_ok h -> Forall step_ok steps -> Sim y a ->
-    exists y', run K kgf accept h y steps = Some y' /\ Sim y' (o_run h a steps).
+    exists y' steps', run K kgf accept h y steps = Some y' /\ pruned steps steps' /\ Sim y' (o_run h a steps') /\
+                      (scan_total -> steps' = steps).
   Proof.
-    induction steps as [|st steps IH]; intros y a Hh Hs HS; cbn [run o_run fold_left].
-    - eexists; split; [reflexivity|exact HS].
-    - inversion Hs; subst. destruct (sim_step h y a st Hh) as (y' & E & HS'); try assumption.
-      rewrite E. apply IH; assumption.
+    induction steps as [|st steps IH]; intros y a Hh Hs HS; cbn [run].
+    - exists y, []. split; [reflexivity|]. split; [constructor|]. split; [exact HS|reflexivity].
+    - inversion Hs as [|? ? Hst Hs']; subst.
+      destruct (sim_step h y a st Hh Hst HS) as (y1 & E & [HS1|(HS1 & (evs & ->) & Nt)]); rewrite E.
+      + destruct (IH y1 _ Hh Hs' HS1) as (y' & steps' & R & P & S' & T).
+        exists y', (st :: steps'). split; [exact R|]. split; [now constructor|]. split; [exact S'|].
+        intros Ht. now rewrite (T Ht).
+      + destruct (IH y1 _ Hh Hs' HS1) as (y' & steps' & R & P & S' & T).
+        exists y', steps'. split; [exact R|]. split; [now constructor|]. split; [exact S'|].
+        intros Ht. contradiction.
   Qed.
 
-  (* The model, started on an empty database, never panics and produces exactly the trace of the specification
-     machine: every request carries, for each distinct key of the batch, the grouped fold of all mutations returned
-     for that key so far (since the start or the restored checkpoint). *)
-  Theorem refines_per_key_map h steps s0 :
+  Lemma init_sim s0 : contents s0 = [] -> Sim (init_sys K s0) o_init.
+  Proof.
+    intros H0. unfold Sim, A_of, init_sys; cbn [sy_db sy_saved sy_trace o_init o_log o_saved o_trace].
+    split; [|split; [constructor|reflexivity]].
+    unfold Inv. rewrite H0. split; [exact I|split].
+    - intros k _. reflexivity.
+    - intros k. constructor.
+  Qed.
+
+  (* With read faults: the model never panics, and the handler-visible trace is that of the specification machine on
+     the history without the batches whose read failed - every handler call still gets the COMPLETE fold of everything
+     applied before it; a failed batch is invisible (no call, nothing applied). *)
+  Theorem refines_per_key_map_faulty h steps s0 :
     contents s0 = [] -> handler_ok h -> Forall step_ok steps ->
+    exists y steps', run K kgf accept h (init_sys K s0) steps = Some y /\ pruned steps steps' /\
+                     sy_trace y = o_trace (o_run h o_init steps').
+  Proof.
+    intros H0 Hh Hs.
+    destruct (sim_run h steps (init_sys K s0) o_init Hh Hs (init_sim s0 H0)) as (y & steps' & E & P & (_ & _ & HT) & _).
+    exists y, steps'. auto.
+  Qed.
+
+  (* The model, started on an empty database, never panics and - when no read fault occurs - produces exactly the
+     trace of the specification machine: every request carries, for each distinct key of the batch, the grouped fold
+     of all mutations returned for that key so far (since the start or the restored checkpoint). *)
+  Theorem refines_per_key_map h steps s0 :
+    scan_total -> contents s0 = [] -> handler_ok h -> Forall step_ok steps ->
     exists y, run K kgf accept h (init_sys K s0) steps = Some y /\
               sy_trace y = o_trace (o_run h o_init steps).
   Proof.
-    intros H0 Hh Hs.
-    destruct (sim_run h steps (init_sys K s0) o_init Hh Hs) as (y & E & (_ & _ & HT)).
-    - unfold Sim, A_of, init_sys; cbn [sy_db sy_saved sy_trace o_init o_log o_saved o_trace].
-      split; [|split; [constructor|reflexivity]].
-      unfold Inv. rewrite H0. split; [exact I|split].
-      + intros k _. reflexivity.
-      + intros k. constructor.
-    - exists y. split; assumption.
+    intros Ht H0 Hh Hs.
+    destruct (sim_run h steps (init_sys K s0) o_init Hh Hs (init_sim s0 H0)) as (y & steps' & E & P & (_ & _ & HT) & T).
+    exists y. rewrite (T Ht) in HT. auto.
   Qed.
 End Refine.
 
@@ -451,7 +511,7 @@ End Refine.
 Lemma list_kv_refines :
   (forall k v s, (fun m : kv_st list_kv => m) (kv_put list_kv k v s) = sm_put k v s) /\
   (forall k s, (fun m : kv_st list_kv => m) (kv_del list_kv k s) = sm_del k s) /\
-  (forall p s, fst (kv_scan list_kv p s) = sm_scan p s /\ snd (kv_scan list_kv p s) = s) /\
+  (forall p s, fst (kv_scan list_kv p s) = Some (sm_scan p s) /\ snd (kv_scan list_kv p s) = s) /\
   (forall cur s, kv_restore list_kv cur s = s).
 Proof. repeat split. Qed.
 
@@ -461,6 +521,8 @@ Theorem refines_per_key_map_list kgf accept h steps :
             sy_trace y = o_trace (o_run h o_init steps).
 Proof.
   intros Hh Hs.
-  exact (refines_per_key_map list_kv (fun m => m) (fun _ _ _ => eq_refl) (fun _ _ => eq_refl) (fun _ _ => conj eq_refl eq_refl)
-           (fun _ _ => eq_refl) kgf accept h steps [] eq_refl Hh Hs).
+  refine (refines_per_key_map list_kv (fun m => m) (fun _ _ _ => eq_refl) (fun _ _ => eq_refl) _
+           (fun _ _ => eq_refl) kgf accept h steps [] _ eq_refl Hh Hs).
+  - intros p s. split; [|reflexivity]. cbn. intros l [= <-]. reflexivity.
+  - intros p s. cbn. discriminate.
 Qed.
